@@ -234,6 +234,11 @@ func (interp *Interpreter) initScopePkg(pkgID, pkgName string) *scope {
 		interp.scopes[pkgID] = sc.pushBloc()
 	}
 	sc = interp.scopes[pkgID]
+	if len(sc.types) < len(interp.universe.types) {
+		// All the package scopes share the global frame: take into account the locations
+		// allocated by the other packages since the last time this scope was left.
+		sc.types = interp.universe.types
+	}
 	sc.pkgID = pkgID
 	sc.pkgName = pkgName
 	interp.mutex.Unlock()
